@@ -172,6 +172,11 @@ theorem add_padAmount_mod (n divisor : Nat) (h : 0 < divisor) : (n + padAmount n
       have := Nat.div_add_mod n divisor; omega
     rw [e]; simp
 
+/-! ### `Py_ssize_t` overflow: never for a size that is really there -/
+
+theorem not_overflows_of_le {n : Nat} {d : B} (h : n ≤ d.length) : ¬ overflows n d := by
+  unfold overflows; omega
+
 /-! ### length blocks -/
 
 theorem length_lenBlockT (skip w pad : Nat) (body : B) :
@@ -197,6 +202,7 @@ theorem readLenBlock_at {d : B} {p skip w pad : Nat} {body : B}
   simp only
   rw [readU_at h2 hw]
   simp only
+  rw [if_neg (not_overflows_of_le (by have := h3.bound; omega))]
   rw [readUpTo_at h3]
   simp only [ne_eq, not_true_eq_false, if_false]
   rw [padAmount_add_mul _ _ _ hp] at h4
